@@ -867,7 +867,12 @@ static int hIdle(int epfd, int timeout, long elapsed, long* adv) {
   int result;
   EstabM* waiting = 0;
   if (g_stepsLeft <= 0) for (size_t i = 0; i < g_es.n && !waiting; ++i) if (g_es[i]->byName && !g_es[i]->released) waiting = g_es[i];
-  if (waiting) { cnt("resolutions_completed_in_final_phase"); if (!releaseGate(waiting)) harnessBug("idle loop with a readable wake-up descriptor"); result = ns::IDLE_AGAIN; }   // every resolution is seen by the loop before the scenario ends
+  if (waiting) {   // every resolution is seen by the loop before the scenario ends
+    // A wake-up that arrived after the loop's poll and before this hook (a resolver thread's late eventfd write) is legal: poll again, the loop drains it.
+    static long pendingRetries = 0;
+    if (releaseGate(waiting)) { cnt("resolutions_completed_in_final_phase"); pendingRetries = 0; }
+    else { cnt("final_phase_wakeup_pending_repolls"); if (++pendingRetries > 10000) harnessBug("idle loop with a wake-up descriptor that stays readable over 10000 polls"); }
+    result = ns::IDLE_AGAIN; }
   else if (g_stepsLeft <= 0) { g_final = true; doInterrupt(1); result = ns::IDLE_AGAIN; }
   else {
     long remaining = (long)(g_nextStepAt - ns::vnow()), tleft = *adv;
